@@ -11,7 +11,7 @@
                         encode sizes; m = n+len(k)+len(v); if nn+m>maxWrite { w.Flush(); nn=0 }; nn+=m; write sizes,k,v }
                       w.Close()  (Flush, then an empty record)                                -> `writePairsLoop`
     Do:               BEGIN_REQUEST{role=1,flags=0}; writePairs(PARAMS); io.Copy(stdin writer, body); Close -> `encodeRequest`
-    record.read / streamReader.Read (after the C55 fix: only STDOUT records contribute)      -> `readStream`
+    record.read / streamReader.Read (the content of EVERY record that is not END_REQUEST is delivered) -> `readStream`
   Abstractions (trusted base, exercised by the correspondence run): the bufio.Writer between writePairs / io.Copy
   and streamWriter only appends while the data fits (theorem `C55_buffer_fits` shows it always fits in writePairs)
   and hands full 65500-byte buffers resp. the rest on Flush to streamWriter.Write; Go's map order = the order of the list.
@@ -83,28 +83,35 @@ def encodeRequest (pairs : List (Bytes × Bytes)) (body : Bytes) : Option Bytes 
 
 /-! ### response side: `record.read` + `streamReader.Read` under `io.ReadAll` -/
 
+/-- `binary.Read(r, BigEndian, &header)`: the 8 header bytes (version, type, id, content length, padding length)
+    and the rest of the connection; shared with the SPEC parser below -/
+def splitHeader : Bytes → Option (UInt8 × UInt8 × Nat × Nat × Nat × Bytes)
+  | v :: t :: i1 :: i0 :: c1 :: c0 :: p :: _ :: rest =>
+    some (v, t, i1.toNat * 256 + i0.toNat, c1.toNat * 256 + c0.toNat, p.toNat, rest)
+  | _ => none
+
 inductive End | eof | ver | short
 deriving DecidableEq, Repr
 
 /-- what `io.ReadAll(streamReader)` yields on the connection content `conn`; `acc` = bytes delivered so far.
+    `record.read` does not look at the record type (except END_REQUEST) nor at the request id.
     END_REQUEST ends the stream with io.EOF (its body is not read); a connection that ends at a record
     boundary, or right after a header, is io.EOF as well (`binary.Read`/`io.ReadFull` semantics). -/
 def readStream : Nat → Bytes → Bytes → Bytes × End
   | 0, _, acc => (acc, .eof)
   | fuel + 1, conn, acc =>
-    match conn with
-    | [] => (acc, .eof)
-    | v :: t :: _ :: _ :: c1 :: c0 :: p :: _ :: rest =>
-      if v ≠ 1 then (acc, .ver)
-      else if t = 3 then (acc, .eof)
-      else
-        let cl := c1.toNat * 256 + c0.toNat
-        let n := cl + p.toNat
-        if n = 0 then readStream fuel rest acc
-        else if rest.length = 0 then (acc, .eof)
-        else if rest.length < n then (acc, .short)
-        else readStream fuel (rest.drop n) (if t = 6 then acc ++ rest.take cl else acc)
-    | _ => (acc, .short)
+    if conn.length = 0 then (acc, .eof)
+    else match splitHeader conn with
+      | none => (acc, .short)
+      | some (v, t, _, cl, pl, rest) =>
+        if v ≠ 1 then (acc, .ver)
+        else if t = 3 then (acc, .eof)
+        else
+          let n := cl + pl
+          if n = 0 then readStream fuel rest acc
+          else if rest.length = 0 then (acc, .eof)
+          else if rest.length < n then (acc, .short)
+          else readStream fuel (rest.drop n) (acc ++ rest.take cl)
 
 def readAll (conn : Bytes) : Bytes × End := readStream (conn.length + 1) conn []
 
@@ -115,11 +122,6 @@ structure Rec where
   id : Nat
   content : Bytes
 deriving DecidableEq, Repr
-
-def splitHeader : Bytes → Option (UInt8 × UInt8 × Nat × Nat × Nat × Bytes)
-  | v :: t :: i1 :: i0 :: c1 :: c0 :: p :: _ :: rest =>
-    some (v, t, i1.toNat * 256 + i0.toNat, c1.toNat * 256 + c0.toNat, p.toNat, rest)
-  | _ => none
 
 /-- a byte string is a sequence of complete version-1 records. -/
 def parseRecs : Nat → Bytes → Option (List Rec)
@@ -187,6 +189,10 @@ def decodeRequest (bs : Bytes) : Option Req :=
 /-- the application's standard output: contents of the STDOUT records before END_REQUEST. -/
 def stdoutOf (rs : List Rec) : Bytes :=
   (((rs.takeWhile (fun r => r.typ != 3)).filter (fun r => r.typ == 6)).map (·.content)).flatten
+
+/-- what the code delivers instead: the contents of ALL records before END_REQUEST -/
+def allBeforeEnd (rs : List Rec) : Bytes :=
+  ((rs.takeWhile (fun r => r.typ != 3)).map (·.content)).flatten
 
 def hasEnd (rs : List Rec) : Bool := rs.any (fun r => r.typ == 3)
 
